@@ -124,6 +124,38 @@ def canon(t):
     if isinstance(t, tuple): return tuple(canon(x) for x in t)
     return t
 
+def fee_presence(eng, PROP, p, FEE, what):
+    """'Some' / 'None' as established on the path. A path that settles a bid (pays it out, rewrites or removes it) must know whether the
+    bid carries a fee: the two cases require different behaviour (fee returned pro rata / nothing), so a path that never looks is wrong
+    for one of them. When undetermined this is reported and the fee-bearing case is assumed for the remaining obligations."""
+    v = p.variant_of(FEE)
+    if FEE[0] == 'adt': v = FEE[2]
+    eng.ob(v in ('Some', 'None'), PROP, 'fee-presence', '%s:%s' % (p.variant, what),
+           '%s: %s on a path that never establishes whether the bid carries a fee (a fee-bearing bid would keep or strand its fee)' % (p.variant, what), where=p, detail=p.describe(14))
+    return v if v in ('Some', 'None') else 'Some'
+
+def ask_class_presence(eng, PROP, p, ASK, what):
+    """'Basic' / 'Pending' / 'Ready' as established on the path. A path that pays out or rewrites an ask must know its class: an approved
+    convertible ask also holds the approver's escrow, so a path that never looks is wrong for one class. Reported when undetermined;
+    the approved class is then assumed for the remaining obligations."""
+    CLASS = F(ASK, 'class'); STATUS = V(CLASS, 'Convertible', 'status')
+    def var(t, universe):
+        v = p.variant_of(t)
+        if v is None:
+            for f, _, _ in p.facts:
+                if f[0] == 'isnot' and f[1] == t:
+                    rest = [u for u in universe if u not in f[2]]
+                    if len(rest) == 1: v = rest[0]
+        return v
+    c = var(CLASS, ('Basic', 'Convertible')); r = None
+    if c == 'Basic': r = 'Basic'
+    elif c == 'Convertible':
+        s_ = var(STATUS, ('PendingIssuerApproval', 'Ready'))
+        r = {'Ready': 'Ready', 'PendingIssuerApproval': 'Pending'}.get(s_)
+    eng.ob(r is not None, PROP, 'class-presence', '%s:%s' % (p.variant, what),
+           '%s: %s on a path that never establishes whether the ask is plain, pending or approved (an approved ask also holds the approver\'s escrow)' % (p.variant, what), where=p, detail=p.describe(14))
+    return r or 'Ready'
+
 def _ordterm(t):
     return t[0] in ('add', 'sub', 'mul', 'div', 'int', 'round', 'dec', 'f', 'v', 'msg', 'rem', 'min', 'stored')
 
